@@ -9,7 +9,9 @@ import (
 	"os"
 	"path/filepath"
 	"sort"
+	"strconv"
 	"strings"
+	"time"
 )
 
 // Case is one generated history: a configuration and protocol lines.
@@ -74,6 +76,43 @@ func (rn Runner) norm(line, obs string) string {
 	return rn.Norm(line, obs)
 }
 
+// hangSeen: an operation of the implementation did not return.  The call is abandoned (its
+// goroutine stays behind), reported as a violation with the history so far as the failing input,
+// and later waits are short; a case that hangs is not shrunk (every attempt would wait again).
+var hangSeen bool
+
+func opTimeout() time.Duration {
+	if hangSeen {
+		return 5 * time.Second
+	}
+	if v, err := strconv.Atoi(os.Getenv("VERIF_OP_TIMEOUT")); err == nil && v > 0 {
+		return time.Duration(v) * time.Second
+	}
+	return 45 * time.Second
+}
+
+func execGuard(ex Executor, line string) (string, string) {
+	type res struct{ obs, viol string }
+	ch := make(chan res, 1)
+	go func() {
+		defer func() {
+			if p := recover(); p != nil {
+				ch <- res{"panic", fmt.Sprintf("panic outside the session's own recovery: %v", p)}
+			}
+		}()
+		o, v := ex.Exec(line)
+		ch <- res{o, v}
+	}()
+	t := opTimeout()
+	select {
+	case r := <-ch:
+		return r.obs, r.viol
+	case <-time.After(t):
+		hangSeen = true
+		return "hang", fmt.Sprintf("the call did not return within %v (abandoned): %s", t, line)
+	}
+}
+
 func RunCase(c Case, d *Driver, rn Runner, st *CaseStats) Outcome {
 	mk := rn.Mk
 	var out Outcome
@@ -83,7 +122,7 @@ func RunCase(c Case, d *Driver, rn Runner, st *CaseStats) Outcome {
 	}
 	lastH := 0
 	for i, line := range c.Ops {
-		impl, viol := ex.Exec(line)
+		impl, viol := execGuard(ex, line)
 		if st != nil {
 			f := strings.Fields(line)
 			if st.Ops == nil {
@@ -134,6 +173,9 @@ func RunCase(c Case, d *Driver, rn Runner, st *CaseStats) Outcome {
 // Shrink minimises the op list while the outcome kind stays the same (delta debugging).
 func Shrink(c Case, d *Driver, mk Runner, kind string, budget int) Case {
 	var orig Outcome
+	if hangSeen {
+		return c
+	}
 	same := func(ops []string) bool {
 		if budget <= 0 {
 			return false
@@ -383,7 +425,7 @@ func sortedKeys(m map[string]int) []string {
 func RunImplOnly(c Case, rn Runner) Outcome {
 	ex := rn.Mk(c.Cfg)
 	for i, line := range c.Ops {
-		impl, viol := ex.Exec(line)
+		impl, viol := execGuard(ex, line)
 		if viol != "" {
 			return Outcome{Kind: "oracle", Index: i, Line: line, Impl: impl, Viol: viol}
 		}
@@ -398,6 +440,9 @@ func (f *FamCtx) SearchOracle(rn Runner, n int) (Case, Outcome, bool) {
 			// shrink with the oracle as predicate
 			ops := c.Ops[:o.Index+1]
 			budget := 300
+			if hangSeen {
+				budget = 0
+			}
 			for chunk := len(ops) / 2; chunk >= 1 && budget > 0; {
 				reduced := false
 				for start := 0; start+chunk <= len(ops)-1 && budget > 0; start += chunk {
